@@ -8,7 +8,7 @@ for d in seeded/*/; do
   n=$(basename $d); id=${n%%-*}
   # some seeds are caught by a neighbouring property's check (see seeded/README.md)
   # (C12-c lies outside its quantifier and C14-m is not closed: both are expected to print exit=0)
-  case $n in C12-b) ids="C10";; C02-h) ids="C01 C03";; C08-l) ids="C04";; C11-h|C11-j) ids="C07";; C11-i) ids="C05";; C12-m) ids="C04";; C17-h) ids="C09";; *) ids="$id";; esac
+  case $n in C12-b) ids="C10";; C02-h) ids="C01 C03";; C08-l) ids="C04";; C11-h|C11-j) ids="C07";; C11-i) ids="C05";; C12-m) ids="C04";; C10-n) ids="C19";; C11-n) ids="C04";; C17-h) ids="C09";; *) ids="$id";; esac
   echo "$n: $(tools/mutant.sh $d/patch.diff $ids | cut -c1-170)"
 done
 for m in mutants/*.diff; do
